@@ -191,7 +191,11 @@ func (b *tgtBuilder) service() string {
 			}
 		}
 		if !found {
-			b.cfg.Services = append(b.cfg.Services, Service{id, svcPool[id][0]})
+			d := svcPool[id][0]
+			if b.rng.Chance(45) {
+				d = genDef(b.rng) // anywhere on the field grid
+			}
+			b.cfg.Services = append(b.cfg.Services, Service{id, d})
 		}
 		return spath(id)
 	case k < 68:
@@ -672,6 +676,9 @@ func deriveStore(rng *RNG, T *Config, opt genOpt) *Config {
 		if rng.Chance(level/2) && len(svcPool[s.Id]) > 1 {
 			s.Defn = svcPool[s.Id][1+rng.Intn(len(svcPool[s.Id])-1)]
 		}
+		if rng.Chance(level/2 + 10) {
+			s.Defn = nearMiss(rng, s.Defn) // differs from the target's definition in exactly one field
+		}
 	}
 	if rng.Chance(level/2) && len(D.Services) > 0 {
 		i := rng.Intn(len(D.Services))
@@ -691,7 +698,11 @@ func deriveStore(rng *RNG, T *Config, opt genOpt) *Config {
 	if rng.Chance(level / 2) {
 		id := Pick(rng, netspocSvcIds)
 		if !sb.hasService(id) {
-			D.Services = append(D.Services, Service{id, svcPool[id][rng.Intn(len(svcPool[id]))]})
+			d := svcPool[id][rng.Intn(len(svcPool[id]))]
+			if rng.Chance(50) {
+				d = genDef(rng)
+			}
+			D.Services = append(D.Services, Service{id, d})
 		}
 	}
 	// left-over groups: random content, or the content of a target group (reusable)
